@@ -41,7 +41,9 @@ impl Apply for ReverseChainSingleSubstitution<'_> {
         };
 
         let mut start_index = 0;
-        let mut end_index = 0;
+        // When the backtrack does not match, the span that was inspected still ends after the
+        // current glyph (0 here made the unsafe_to_concat below flag the empty span).
+        let mut end_index = ctx.buffer.idx + 1;
 
         if match_backtrack(ctx, self.backtrack_coverages.len(), &f1, &mut start_index) {
             if match_lookahead(
